@@ -703,9 +703,10 @@ __offs(struct zif_s z[static 1U], stamp_t t)
 	if (LIKELY(t >= z->cache.prev && t < z->cache.next)) {
 		/* use the cached offset */
 		return z->cache.offs;
-	} else if (UNLIKELY(z->cache.prev >= z->cache.next)) {
-		/* nothing cached yet (or only the time before the first
-		 * transition), the cached transition number is no hint then */
+	} else if (UNLIKELY(z->cache.prev >= z->cache.next ||
+			    z->cache.prev == STAMP_MIN)) {
+		/* nothing cached yet or only the time before the first
+		 * transition, the cached transition number is no hint then */
 		min = 0;
 		max = z->ntr;
 	} else if (t >= z->cache.next) {
